@@ -36,7 +36,11 @@ func (db *DB) InsertRaw(stream string, ts time.Time, dims bytemap.ByteMap, vals 
 			db.log.Tracef("Whitelist Dims Original dims: %v", dims.AsMap())
 			db.log.Tracef("Whitelist Dims Slicing dims with whitelist: %v", db.opts.WhitelistedDimensions)
 		}
-		dims = dims.Slice(db.opts.WhitelistedDimensions)
+		var sliceErr error
+		dims, sliceErr = sliceDims(dims, db.opts.WhitelistedDimensions)
+		if sliceErr != nil {
+			return sliceErr
+		}
 		if db.log.IsTraceEnabled() {
 			db.log.Tracef("Whitelist Dims Sliced dims: %v", dims.AsMap())
 		}
@@ -56,6 +60,18 @@ func (db *DB) InsertRaw(stream string, ts time.Time, dims bytemap.ByteMap, vals 
 		db.log.Error(err)
 	}
 	return err
+}
+
+// sliceDims applies the dimension whitelist. The dims come straight from the
+// client and bytemap doesn't bounds-check, so a malformed map is reported as an
+// error rather than taking down the caller.
+func sliceDims(dims bytemap.ByteMap, whitelist map[string]bool) (result bytemap.ByteMap, err error) {
+	defer func() {
+		if p := recover(); p != nil {
+			err = fmt.Errorf("Malformed dims: %v", p)
+		}
+	}()
+	return dims.Slice(whitelist), nil
 }
 
 type walRead struct {
